@@ -22,6 +22,8 @@ package main
 
 import (
 	"bytes"
+	"crypto/sha1"
+	"encoding/hex"
 	"fmt"
 	"os"
 	"runtime/pprof"
@@ -394,7 +396,10 @@ func exec3(r *ev.Run, nIDs int, h []event, again *bool) (string, string, *seqx.F
 				}
 			}
 			for _, id := range inserted {
-				i1, i2 := probe(m.capOf[g.h], id)
+				i1, i2 := probe(uint(float64(nb)*3.6), id) // any capacity that yields nb buckets
+				if i1 >= nb || i2 >= nb {
+					ev.Harness("probe filter has more buckets than the generation under test (%d)", nb)
+				}
 				switch {
 				case occ[i1] < 4:
 					occ[i1]++
@@ -447,6 +452,13 @@ func exec3(r *ev.Run, nIDs int, h []event, again *bool) (string, string, *seqx.F
 			}
 			if pre.Cur != post.Cur {
 				r.Add("rotations", 1)
+				if pre.Fut == nil {
+					// DESIGN C31 P: load jumped past 0.5 and 0.99 between two Maintain calls, so the filter
+					// rotated to a generation created in the same call: every dropped record is forgotten at
+					// once. The filter WAS filled to capacity since those records, so the statement as
+					// worded is not violated; counted for the record.
+					r.Add("rotations_to_a_just_created_empty_generation", 1)
+				}
 			}
 		}
 		// --- judge the answer
@@ -532,7 +544,8 @@ func exec3(r *ev.Run, nIDs int, h []event, again *bool) (string, string, *seqx.F
 	for _, l := range m.lrus {
 		fmt.Fprintf(&b, "%v", l.order)
 	}
-	return b.String(), outcome, nil
+	sum := sha1.Sum(b.Bytes()) // the key is long; a 160-bit digest keeps the seen-set small
+	return hex.EncodeToString(sum[:]), outcome, nil
 }
 
 // enabled builds the menu: trace IDs are introduced in index order, queries only name traces that
@@ -573,7 +586,7 @@ func main() {
 		pprof.StartCPUProfile(f)
 	}
 	nIDs := ev.Pick(r, 4, 6)
-	depth := ev.Pick(r, 7, 9)
+	depth := ev.Pick(r, 7, 8)
 	if d := os.Getenv("VERIF_DEPTH"); d != "" {
 		fmt.Sscan(d, &depth)
 	}
